@@ -5,8 +5,8 @@
    final_of, raises, clean. *)
 From Coq Require Import List NArith Bool.
 Import ListNotations.
-From TV Require Import Lib.Obs C32.Model C32.Spec C32.Run C32.Proofs C32.ProofsIp C32.ProofsCheck
-  C32.ProofsMain.
+From TV Require Import Lib.Obs C32.Model C32.Spec C32.Run C32.Proofs C32.ProofsIp C32.ProofsNames
+  C32.ProofsCheck C32.ProofsMain C32.Ast C32.ProofsAst Gen.C32_src Gen.C32_equiv.
 Local Open Scope N_scope.
 
 (* 1. After _apply_xheaders, remote_ip is the examined candidate exactly when is_valid_ip
@@ -159,24 +159,79 @@ Theorem C32_socket_address :
 Proof. exact init_socket_ip. Qed.
 Print Assumptions C32_socket_address.
 
-(* 6. The model's observable passes the property checker that is applied to the implementation. *)
+(* 6. The model's observable passes the property checker that is applied to the implementation
+      EXACTLY on the well-formed inputs (input_wf: the recorded getaddrinfo table covers every
+      string asked, the socket values are plain, the recorded answers agree with the textual
+      recogniser on the table keys).  Unconditional: for every input. *)
+Theorem C32_model_satisfies_checker_iff_input_well_formed :
+  forall i, check_case i (run_case i) = input_wf i.
+Proof. exact check_case_model_iff. Qed.
+Print Assumptions C32_model_satisfies_checker_iff_input_well_formed.
+
 Theorem C32_model_satisfies_checker :
-  forall fam addr proto tr tbl reqs,
-  let i : input := (fam, addr, proto, tr, tbl, reqs) in
-  let c := ctx_of i in
-  let gai := gai_of tbl in
-  forallb (fun s => is_some (lookup tbl s)) (asked gai c reqs) = true ->
-  plain_str (orig_ip c) = true -> plain_str (orig_proto c) = true ->
-  (forall s, In s (map fst tbl) ->
-     ip_guard s = true -> plain_ipv4 s || plain_ipv6 s = true -> gai s = true) ->
-  (forall s, ip_guard s = true -> gai s = true -> numeric_form s = true) ->
-  check_case i (run_case i) = true.
+  forall i, input_wf i = true -> check_case i (run_case i) = true.
 Proof. exact check_case_model. Qed.
 Print Assumptions C32_model_satisfies_checker.
 
-Theorem C32_model_satisfies_checker_example : check_case ex_input (run_case ex_input) = true.
-Proof. exact ex_input_checks. Qed.
+(* well-formedness follows from assumptions on the recorded getaddrinfo answers *)
+Theorem C32_input_well_formed_from_getaddrinfo_assumptions :
+  forall i,
+  let tbl := table_of i in
+  let c := ctx_of i in
+  let gai := gai_of tbl in
+  forallb (fun s => is_some (lookup tbl s)) (asked gai c (reqs_of i)) = true ->
+  plain_str (orig_ip c) = true -> plain_str (orig_proto c) = true ->
+  (forall s, In s (map fst tbl) ->
+     ip_guard s = true -> plain_ipv4 s || plain_ipv6 s = true -> gai s = true) ->
+  (forall s, In s (map fst tbl) -> ip_guard s = true -> gai s = true -> numeric_form s = true) ->
+  input_wf i = true.
+Proof. exact input_wf_intro. Qed.
+Print Assumptions C32_input_well_formed_from_getaddrinfo_assumptions.
+
+Theorem C32_model_satisfies_checker_example :
+  input_wf ex_input = true /\ check_case ex_input (run_case ex_input) = true.
+Proof. split; [exact ex_input_wf|exact ex_input_checks]. Qed.
 Print Assumptions C32_model_satisfies_checker_example.
+
+(* 8. Header names (httputil._normalize_header): a header line is read as one of the proxy
+      headers / Connection exactly when its name equals that name up to ASCII case. *)
+Theorem C32_header_names_are_case_insensitive :
+  (forall n, classify_name n = spec_kind n)
+  /\ (forall n m, lc n = lc m -> classify_name n = classify_name m).
+Proof. split; [exact classify_is_case_insensitive_match|exact classify_case_insensitive]. Qed.
+Print Assumptions C32_header_names_are_case_insensitive.
+
+(* 9. Keep-alive (HTTP1Connection._can_keep_alive, GET requests): never with no_keep_alive;
+      HTTP/1.1 unless Connection is "close" (any case); HTTP/1.0 only if it is "keep-alive". *)
+Theorem C32_keep_alive_rule :
+  forall nka v11 hs,
+  can_keep_alive nka v11 hs = true <->
+  nka = false /\
+  (if v11 then ~ (exists v, hget HConn hs = Some v /\ lc v = s_close)
+   else exists v, hget HConn hs = Some v /\ lc v = s_keep_alive).
+Proof. exact keep_alive_rule. Qed.
+Print Assumptions C32_keep_alive_rule.
+
+(* a request reaches a handler only if every earlier request on the connection was read
+   completely and kept the connection alive; whatever follows another kind of request is ignored *)
+Theorem C32_handled_requests :
+  forall reqs r, In r (handled reqs) ->
+  exists pre post, reqs = pre ++ r :: post
+                   /\ Forall (fun q => snd q = Finish true) pre /\ snd r <> BadHead.
+Proof. exact handled_in. Qed.
+Print Assumptions C32_handled_requests.
+
+Theorem C32_requests_after_close_are_ignored :
+  forall nka pre r post,
+  snd (resolve nka r) <> Finish true ->
+  handled (map (resolve nka) (pre ++ r :: post)) = handled (map (resolve nka) (pre ++ [r])).
+Proof. exact requests_after_close_ignored. Qed.
+Print Assumptions C32_requests_after_close_are_ignored.
+
+Theorem C32_no_keep_alive_serves_one_request :
+  forall raws, (length (handled (map (resolve true) raws)) <= 1)%nat.
+Proof. exact no_keep_alive_serves_one. Qed.
+Print Assumptions C32_no_keep_alive_serves_one_request.
 
 (* 7. Regression of the fixed defect: text that is not ASCII is never adopted, whatever
       getaddrinfo (which IDNA-normalises it) says. *)
@@ -186,3 +241,36 @@ Proof.
   intros gai s H. unfold valid_ip, ip_guard. rewrite H. rewrite andb_false_r. reflexivity.
 Qed.
 Print Assumptions C32_non_ascii_never_valid.
+
+(* 10. Source tie.  The statement trees read from tornado/httpserver.py and tornado/netutil.py on
+       this run (Gen/C32_src.v, by translators/c32_src.py — fails closed on any other shape),
+       interpreted by Ast.exec, ARE the model's functions: for every getaddrinfo, header list and
+       context.  (The interpreter answers None where Python would raise on an unbound local or the
+       construct is outside the language; the theorems show that never happens here.) *)
+Theorem C32_source_apply_xheaders_is_the_model :
+  forall gai hs c, run_method gai hs src_apply c = Some (apply_xheaders gai c hs).
+Proof. exact src_apply_means. Qed.
+Print Assumptions C32_source_apply_xheaders_is_the_model.
+
+Theorem C32_source_unapply_xheaders_is_the_model :
+  forall gai hs c, run_method gai hs src_unapply c = Some (unapply_xheaders c).
+Proof. exact src_unapply_means. Qed.
+Print Assumptions C32_source_unapply_xheaders_is_the_model.
+
+Theorem C32_source_is_valid_ip_guard_is_the_model :
+  forall s, negb (guard_rejects src_guard s) = ip_guard s.
+Proof. exact src_guard_means. Qed.
+Print Assumptions C32_source_is_valid_ip_guard_is_the_model.
+
+(* the call sequences of _ProxyAdapter.headers_received / finish / on_connection_close give the
+   per-request context transitions used by [serve] (Model.after), including the skipped
+   _cleanup when the application's method raises *)
+Theorem C32_source_proxy_adapter_is_the_model :
+  forall gai hs c,
+  (forall raises, run_steps gai hs raises src_pa_headers_received c = apply_xheaders gai c hs)
+  /\ (forall ka, run_steps gai hs false src_pa_finish c = fst (after c (Finish ka)))
+  /\ run_steps gai hs true src_pa_finish c = fst (after c FinishRaises)
+  /\ run_steps gai hs false src_pa_on_connection_close c = fst (after c Close)
+  /\ run_steps gai hs true src_pa_on_connection_close c = fst (after c CloseRaises).
+Proof. exact src_pa_means. Qed.
+Print Assumptions C32_source_proxy_adapter_is_the_model.
